@@ -275,10 +275,28 @@ theorem mem_keys_combineAcc [Num α] (ds : List (Delta α)) (k : Str) :
     k ∈ (combineAcc ds).map ckey ↔ k ∈ ds.map ckey := by
   simp [combineAcc, mem_keys_foldl]
 
-theorem combine_perm [Num α] (ds : List (Delta α)) : (combine ds).Perm (combineAcc ds) := isort_perm _ _
+@[simp] theorem ckey_canonEntry [Num α] (ds : List (Delta α)) (e : Delta α) :
+    ckey (canonEntry ds e) = ckey e := rfl
+@[simp] theorem strip_canonEntry [Num α] (ds : List (Delta α)) (e : Delta α) :
+    strip (canonEntry ds e) = strip e := rfl
+
+/-- the accumulator entries with their canonical sums, before the final sort by key -/
+def combineC [Num α] (ds : List (Delta α)) : List (Delta α) := (combineAcc ds).map (canonEntry ds)
+
+theorem combine_perm [Num α] (ds : List (Delta α)) : (combine ds).Perm (combineC ds) := isort_perm _ _
+
+theorem keys_combineC [Num α] (ds : List (Delta α)) : (combineC ds).map ckey = (combineAcc ds).map ckey := by
+  simp [combineC, List.map_map, Function.comp_def]
+
+theorem nodup_keys_combineC [Num α] (ds : List (Delta α)) : ((combineC ds).map ckey).Nodup := by
+  rw [keys_combineC]; exact nodup_keys_combineAcc ds
 
 theorem nodup_keys_combine [Num α] (ds : List (Delta α)) : ((combine ds).map ckey).Nodup :=
-  ((combine_perm ds).map ckey).nodup_iff.2 (nodup_keys_combineAcc ds)
+  ((combine_perm ds).map ckey).nodup_iff.2 (nodup_keys_combineC ds)
+
+theorem mem_combine [Num α] (ds : List (Delta α)) (e : Delta α) :
+    e ∈ combine ds ↔ ∃ e₀ ∈ combineAcc ds, canonEntry ds e₀ = e := by
+  rw [(combine_perm ds).mem_iff]; simp [combineC]
 
 theorem nodup_keys_afterCd [Num α] (inp : Input α) : ((afterCd inp).map ckey).Nodup :=
   ((List.filter_sublist (l := combine inp.deltas)).map ckey).nodup (nodup_keys_combine _)
